@@ -629,3 +629,29 @@ Definition agree_C20 (v m i : val) : bool :=
     && Nat.eqb (length ma) (length ia)
   | _, _ => false
   end.
+
+(** * Correspondence of the segmenter (UAX29_Model): every cluster list handed over by the
+    harness — the clusters of every word of every line (character n-grams), the segmentation of
+    every candidate key of the dictionary file, the clusters of every normalised query — must be
+    the UTF-8 encoding of the model's own segmentation of the text it spells: decode the
+    concatenated bytes ([C01_Model.utf8_decode], the strict decoder), segment the code points,
+    encode each cluster.  Part of [agree], not of [check_C20]: a mismatch is a model /
+    implementation disagreement, not a property failure. *)
+From TU Require C01_Model UAX29_Model.
+Fixpoint bl_eqb (a b : list bytes) : bool :=
+  match a, b with
+  | [], [] => true
+  | x :: a', y :: b' => bytes_eqb x y && bl_eqb a' b'
+  | _, _ => false
+  end.
+(** grapheme clusters of the text [s], as byte strings *)
+Definition seg_bytes (s : str) : list bytes := map utf8s (UAX29_Model.segment s).
+Definition seg_checked (cls : list bytes) : bool :=
+  match C01_Model.utf8_decode (concat cls) with
+  | Some s => bl_eqb (seg_bytes s) cls
+  | None => false
+  end.
+Definition uax29_agree (v : val) : bool :=
+  forallb (fun l : linfo => forallb (fun w : winfo => seg_checked (map fst (snd w))) l) (in_lines v)
+  && forallb seg_checked (in_segs v)
+  && forallb (fun q : query => seg_checked (snd (snd q))) (in_queries v).
